@@ -307,6 +307,112 @@ fn check_tokens_and_json_pointer(ctx: &Ctx, universe: &[String]) -> (u64, u64, u
     (tokens_checked, compared, malformed_seen)
 }
 
+// ---------------------------------------------------------------- unstated index spellings: model-free clauses
+
+/// Array-index spellings RFC 6901 does not allow but `usize::from_str` (or a hand-written
+/// parser) may accept, plus out-of-range and append markers. Whether the registry accepts
+/// them is not stated; *if* a write through one succeeds, the stated clauses still apply.
+const ODD_INDEX: [&str; 12] = ["01", "00", "+1", "+0", "-0", "-1", "1 ", " 1", "0x1", "1e0", "-", "18446744073709551616"];
+
+fn odd_pointers() -> Vec<String> {
+    // array locations of the "tree" start document: /a/0 = [10,20], /b = [{..},[10,20],"x"], /b/1 = [10,20]
+    let mut v = Vec::new();
+    for t in ODD_INDEX {
+        v.push(format!("/a/0/{t}"));
+        v.push(format!("/b/{t}"));
+        v.push(format!("/b/1/{t}"));
+        v.push(format!("/b/{t}/0"));
+        v.push(format!("/b/{t}/a"));
+        v.push(format!("/b/{t}/{t}"));
+    }
+    v
+}
+
+/// Tokens of a pointer with every index-like token reduced to the number any lenient
+/// parser could read it as (so "/b/01" and "/b/1" count as related).
+fn loose_tokens(p: &str) -> Vec<String> {
+    p.split('/').skip(1).map(|t| {
+        let u = t.trim().trim_start_matches('+');
+        match u.parse::<u128>() {
+            Ok(n) => n.to_string(),
+            Err(_) => t.to_string(),
+        }
+    }).collect()
+}
+
+fn related(p: &str, q: &str) -> bool {
+    // "" and "/" both spell the root in the registry's request form
+    if q.is_empty() || q == "/" || !q.starts_with('/') {
+        return true;
+    }
+    let (a, b) = (loose_tokens(p), loose_tokens(q));
+    let n = a.len().min(b.len());
+    a[..n] == b[..n]
+}
+
+fn odd_case(p: &str, op: &Op) -> (bool, Vec<(String, String)>) {
+    let mut bad = Vec::new();
+    let live = Live::new();
+    for s in seed_ops("tree").unwrap() {
+        let _ = live.apply(&s);
+    }
+    let mut observed: Vec<String> = full_universe().into_iter().filter(|q| q.matches('/').count() <= 3).collect();
+    observed.extend(odd_pointers());
+    let before: Vec<LiveRes> = observed.iter().map(|q| live.read(q)).collect();
+    let r = live.apply(op);
+    let v = match op {
+        Op::Send(_, v) | Op::RegValue(_, v) => v.clone(),
+        _ => return (false, bad),
+    };
+    if r.is_ok() {
+        // "a successful write to a non-root pointer is returned by the next read of that pointer"
+        let back = live.read(p);
+        if back != Ok(v.clone()) {
+            bad.push(("C14:write-not-read-back".to_string(), format!("{} succeeded, yet the next read of {p:?} returned {back:?} instead of {v}", op.short())));
+        }
+        let back2 = live.apply(&Op::ReadValue(p.to_string()));
+        if back2 != Ok(v.clone()) {
+            bad.push(("C14:write-not-read-back".to_string(), format!("{} succeeded, yet read_value({p:?}) returned {back2:?} instead of {v}", op.short())));
+        }
+        // "... and changes nothing at unrelated pointers"
+        // (for requests only: a registration may replace a non-object ancestor by an object,
+        // which is not stated either way and moves its siblings)
+        for (q, b) in observed.iter().zip(&before) {
+            if matches!(op, Op::Send(..)) && !related(p, q) && live.read(q) != *b {
+                bad.push(("C14:unrelated-pointer-changed".to_string(), format!("{} succeeded and changed the unrelated pointer {q:?} from {b:?} to {:?}", op.short(), live.read(q))));
+                break;
+            }
+        }
+    }
+    (r.is_ok(), bad)
+}
+
+/// Returns (cases, successful writes).
+fn check_odd_spellings(ctx: &Ctx) -> (u64, u64) {
+    let (mut cases, mut wrote) = (0u64, 0u64);
+    for p in odd_pointers() {
+        for v in values() {
+            for op in [Op::Send(p.clone(), v.clone()), Op::RegValue(p.clone(), v.clone())] {
+                cases += 1;
+                let out = catch_unwind(AssertUnwindSafe(|| odd_case(&p, &op)));
+                let case = json!({"mode": "odd-index", "seed": "tree", "ops": [op.to_json()]});
+                match out {
+                    Err(_) => ctx.violation("C14:panic", format!("panic while executing {} on the tree start document", op.short()), case),
+                    Ok((accepted, bad)) => {
+                        if accepted {
+                            wrote += 1;
+                        }
+                        for (k, w) in bad {
+                            ctx.violation(k, format!("{w} [start tree \"tree\"]"), case.clone());
+                        }
+                    }
+                }
+            }
+        }
+    }
+    (cases, wrote)
+}
+
 fn replay_json_pointer(case: &Value) -> Result<(), String> {
     let p = case["pointer"].as_str().ok_or("pointer")?;
     let want = o::rfc_tokens(p).ok_or("malformed pointer: nothing stated")?;
@@ -349,6 +455,7 @@ pub fn run(tier: Tier) -> ! {
     }
 
     let (tokens_checked, jp_compared, jp_malformed) = check_tokens_and_json_pointer(&ctx, &universe);
+    let (odd_cases, odd_accepted) = check_odd_spellings(&ctx);
 
     // ---- (a) single-step sweep: every operation x every pointer x three start trees
     let full = Cfg::new(&universe, true, true);
@@ -487,6 +594,8 @@ pub fn run(tier: Tier) -> ! {
     nv.insert("successful_merges".into(), json!(c(C_MERGE_OK)));
     nv.insert("requests_at_root_spellings".into(), json!(c(C_ROOT_SPELLINGS)));
     nv.insert("token_spellings_round_tripped".into(), json!(tokens_checked));
+    nv.insert("odd_index_spelling_writes(read-back + unrelated-unchanged, model-free)".into(), json!(odd_cases));
+    nv.insert("odd_index_spelling_writes_accepted".into(), json!(odd_accepted));
     nv.insert("json_pointer_comparisons".into(), json!(jp_compared));
     nv.insert("json_pointer_malformed_inputs_not_compared".into(), json!(jp_malformed));
 
@@ -532,6 +641,15 @@ pub fn run(tier: Tier) -> ! {
 pub fn replay(case: &Value) -> Result<(), String> {
     if case["mode"] == "json_pointer" {
         return replay_json_pointer(case);
+    }
+    if case["mode"] == "odd-index" {
+        let op = case["ops"].get(0).and_then(Op::from_json).ok_or("bad op")?;
+        let p = match &op {
+            Op::Send(p, _) | Op::RegValue(p, _) => p.clone(),
+            _ => return Err("odd-index case without a write".into()),
+        };
+        let (_, bad) = odd_case(&p, &op);
+        return if bad.is_empty() { Ok(()) } else { Err(bad.iter().map(|(k, w)| format!("{k}: {w}")).collect::<Vec<_>>().join("\n")) };
     }
     let seed = seed_ops(case["seed"].as_str().unwrap_or("empty")).ok_or("unknown seed")?;
     let ops: Vec<Op> = case["ops"].as_array().ok_or("ops")?.iter().map(Op::from_json).collect::<Option<Vec<_>>>().ok_or("bad op")?;
